@@ -17,7 +17,10 @@ scipy expression of gmrf.py stands for which operation of `Core/C12Src.lean`.  C
     (np.sqrt); `cinv` is `_covariance_matrix_inverse` itself (the assembly routines are translated for an arbitrary one,
     `__init__` plugs the translated one in); `init_from_covariance_matrix` is recorded as the call it receives;
   * `verbose` is fixed to False (progress printing), `return_covariances` is translated for both of its values
-    (`...RC` definitions return the covariances as well) and `dtype` is carried along but has no effect on exact numbers.
+    (`...RC` definitions return the covariances as well); `dtype=` and `shape=` have no effect on exact numbers but are
+    carried as the opaque words `asDtype` / `withShape`, so a hard-coded, swapped or dropped one does not prove equal;
+  * the translation is value-level: object identity, `.copy()`, aliasing and in-place mutation through an alias are not
+    visible to it (`p op= e` on a parameter is refused as untranslatable); numpy's shape / index errors are not modelled.
 """
 import os
 
@@ -39,9 +42,9 @@ CONSTS = [
 
 ARRAYS = [
     # allocation
-    ("np.zeros(($a, $b, $c), dtype=$d)", "(zerosN {a} {b} {c})"),
-    ("np.zeros(($a, $b), dtype=$d)", "(zerosRC {a} {b})"),
-    ("np.zeros($s, dtype=$d)", "(zeros3 {s})"),
+    ("np.zeros(($a, $b, $c), dtype=$d)", "(asDtype {d} (zerosN {a} {b} {c}))"),
+    ("np.zeros(($a, $b), dtype=$d)", "(asDtype {d} (zerosRC {a} {b}))"),
+    ("np.zeros($s, dtype=$d)", "(asDtype {d} (zeros3 {s}))"),
     ("np.zeros($n)", "(List.replicate {n} (0 : Nat))"),
     # the graph
     ("$g.n_edges", "(GraphS.nEdges {g})"),
@@ -69,7 +72,7 @@ ARRAYS = [
     ("$x.size != 0", "(!((List.length {x}) == (0)))"),
     ("$x.size >= 1", "(!((List.length {x}) == (0)))"),
     ("$x.size", "(List.length {x})"),
-    ("bsr_matrix(($b, $c, $i), shape=($n, $m), dtype=$d)", "(mkBsr {b} {c} {i})"),
+    ("bsr_matrix(($b, $c, $i), shape=($n, $m), dtype=$d)", "(withShape {n} {m} (asDtype {d} (mkBsr {b} {c} {i})))"),
     ("$x not in $s", "(!(List.contains {s} {x}))"),
     ("$x.shape[0]", "(List.length {x})"),
     # indexing (last: the specific subscripts above win); the index may be a natural, an integer (negative: from
@@ -96,6 +99,7 @@ def module_helpers():
 
 def rules(extra_expr=(), stmt=(), names=None, ret=".ok ({e})", raise_=".error .valueError", **kw):
     kw.setdefault("helpers", module_helpers())
+    kw.setdefault("refuse_inplace_params", True)
     return P.Rules2T(expr=list(extra_expr) + CONSTS + ARRAYS, stmt=list(stmt) + ARRAY_STMT, names=names or {}, ret=ret,
                      raise_=raise_, unwrap=UNWRAP, **kw)
 
